@@ -40,6 +40,7 @@ func c04Main(e *Env) (*res.Result, error) {
 	disabled := disabledTags()
 	specs := collect(e, "C04", n, func(t *rapid.T) PkgSpec {
 		c := specgen.NewCtx(t, disabled)
+		c.RealisticHeaders = []string{"Accept", "Accept-Language", "If-None-Match", "X-Request-Id"}
 		d := c.ParamsDoc(false)
 		// a third of the specs: one operation is secured by an api key carried in the query
 		// under the very name of one of its declared query parameters
